@@ -123,6 +123,31 @@ pub fn euclidean_distance_squared(a: &[f32], b: &[f32]) -> f64 {
     f64::from(sum_sq)
 }
 
+/// Cosine distance with f64 accumulation, used when the f32 accumulators of
+/// `cosine_distance` leave the f32 range (components of magnitude around 1e19 and above).
+fn cosine_distance_wide(a: &[f32], b: &[f32]) -> f64 {
+    let mut dot_product: f64 = 0.0;
+    let mut norm_a_sq: f64 = 0.0;
+    let mut norm_b_sq: f64 = 0.0;
+
+    for (x, y) in a.iter().zip(b.iter()) {
+        let (x, y) = (f64::from(*x), f64::from(*y));
+        dot_product += x * y;
+        norm_a_sq += x * x;
+        norm_b_sq += y * y;
+    }
+
+    let norm_a = norm_a_sq.sqrt();
+    let norm_b = norm_b_sq.sqrt();
+
+    if norm_a == 0.0 || norm_b == 0.0 {
+        return 0.0;
+    }
+
+    let similarity = dot_product / (norm_a * norm_b);
+    1.0 - similarity.clamp(-1.0, 1.0)
+}
+
 /// Compute cosine distance between two vectors.
 ///
 /// Formula: d(a, b) = 1 - (a · b) / (||a|| * ||b||)
@@ -150,6 +175,11 @@ pub fn cosine_distance(a: &[f32], b: &[f32]) -> f64 {
         dot_product += x * y;
         norm_a_sq += x * x;
         norm_b_sq += y * y;
+    }
+
+    // The f32 accumulators overflow for large-magnitude vectors: redo the sums in f64
+    if !(dot_product.is_finite() && norm_a_sq.is_finite() && norm_b_sq.is_finite()) {
+        return cosine_distance_wide(a, b);
     }
 
     let norm_a = f64::from(norm_a_sq).sqrt();
@@ -320,6 +350,10 @@ pub fn cosine_distance_checked(a: &[f32], b: &[f32]) -> Result<f64, VectorError>
         dot_product += x * y;
         norm_a_sq += x * x;
         norm_b_sq += y * y;
+    }
+
+    if !(dot_product.is_finite() && norm_a_sq.is_finite() && norm_b_sq.is_finite()) {
+        return Ok(cosine_distance_wide(a, b));
     }
 
     let norm_a = f64::from(norm_a_sq).sqrt();
